@@ -30,11 +30,18 @@ def parseLine (l : Line) : Option Obs := do
          ex := ← flag l.op "ex", serr := ← flag l.op "err", hold := ← flag l.op "hold",
          inv := ← nat l.obs "inv", ret := ← nat l.obs "ret",
          val := ← (kv? l.obs "val").bind optNat, fresh := ← (kv? l.obs "fresh").bind optBool,
-         err := ← (kv? l.obs "err").bind optNat,
+         err := ← (if (kv? l.obs "err") = some "lk" then some none else (kv? l.obs "err").bind optNat),
+         lkerr := (kv? l.obs "err") = some "lk",
+         cx := ← (match kv? l.op "cx" with | none => some 0 | some v => v.toNat?),
          fs := ← (kv? l.obs "fs").bind optNat, fe := ← (kv? l.obs "fe").bind optNat,
          runs := ← nat l.obs "runs", stuck := ← flag l.obs "stuck",
-         panicked := (kv? l.obs "panic") = some "1",
-         spanic := (kv? l.op "panic") = some "1" }
+         panicked := (kv? l.obs "panic") = some "1" || (kv? l.obs "panic") = some "2",
+         goexit := (kv? l.obs "panic") = some "2",
+         spanic := (kv? l.op "panic") = some "1",
+         nilv := (kv? l.op "nilv") = some "1",
+         pk := ← (match kv? l.op "pk" with | none => some 1 | some v => v.toNat?),
+         ek := ← (match kv? l.op "ek" with | none => some 1 | some v => v.toNat?),
+         ep := ← (match kv? l.op "ep" with | none => some 0 | some v => v.toNat?) }
 
 /-- well-formedness of one observed call (a broken harness or a broken stamp order is a mismatch). -/
 def wellFormed (o : Obs) : Option String :=
@@ -44,6 +51,16 @@ def wellFormed (o : Obs) : Option String :=
     | some s, some e => if o.runs = 0 then some "stamps-without-run" else if o.inv < s && s < e && e < o.ret then none else some "inv<fs<fe<ret"
     | none, none => if o.runs = 0 then none else some "run-without-stamps"
     | _, _ => some "half-stamped"
+
+def errKindName : Nat → String
+  | 1 => "pointer" | 2 => "wrapped" | 3 => "value-typed" | 4 => "typed-nil" | 5 => "not-found" | _ => "?"
+def optKindName : String → String
+  | "0" => "0(none)" | "1" => "1(one)" | "2" => "2(all)" | "3" => "3(zero-valued)" | "4" => "4(negative)"
+  | "5" => "5(empty/reordered/repeated)" | o => o
+def ctxKindName : Nat → String
+  | 0 => "background" | 1 => "far-deadline" | 2 => "cancelled" | _ => "?"
+def exitKindName : Nat → String
+  | 1 => "panic-string" | 2 => "panic-error-value" | 3 => "runtime.Goexit" | _ => "?"
 
 def dupIds (h : List Obs) : Bool := h.any fun a => h.any fun b => a.id = b.id && a.line ≠ b.line
 
@@ -64,6 +81,12 @@ def runSection (r : Report) (s : Section) : Report := Id.run do
         if hist.isEmpty && (inj.lookup k).isNone then inj := inj ++ [(k, n)]; r := r.addCover "rm-inject"
         else r := r.mismatch s.idx l.idx "inject-before-calls-once-per-key" (joinSp l.op)
       | _, _, _ => r := r.mismatch s.idx l.idx "unparsable-line" (joinSp (l.op ++ ["=>"] ++ l.obs))
+      continue
+    if mode = "rm" && l.op.head? = some "corrupt" then
+      -- an undecodable cache entry (cacheNode.processCache deletes it and reports not-found): to the model the key is
+      -- absent (`RM.CacheRead.corrupt` behaves like `empty` in `RM.doTakeClosure`), so the row must be loaded once
+      if l.obs = ["ok"] && hist.isEmpty then r := r.addCover "cacheNode.Take-corrupt-entry-before-the-calls"
+      else r := r.mismatch s.idx l.idx "corrupt-before-calls" (joinSp (l.op ++ ["=>"] ++ l.obs))
       continue
     if mode = "rm" && l.op = ["close"] then
       closeLine := some l
@@ -112,14 +135,17 @@ def runSection (r : Report) (s : Section) : Report := Id.run do
   if via ≠ "" then
     -- a user of SingleFlight driven through its own API (same monitor / model as ResourceManager.GetResource)
     r := r.addCover s!"{via}-sections"
+    r := r.addCover s!"{via}-constructor-options-{optKindName (kvStr s.cfg "opt" "0")}"
     for o in h do
       r := r.addCover s!"{via}-calls"
       if o.ran && !o.serr then r := r.addCover s!"{via}-loaded"
-      if o.ran && o.serr then r := r.addCover s!"{via}-load-failed"
+      if o.ran && o.failed then r := r.addCover s!"{via}-load-failed"
+      if o.created && o.serr then r := r.addCover s!"{via}-load-reported-not-found(placeholder-cached)"
+      if !o.ran && h.any (fun l => some l.id = o.val && l.serr && l.ek = 5) then r := r.addCover s!"{via}-got-not-found-without-query"
       if !o.ran && o.err.isSome then r := r.addCover s!"{via}-joiner-got-leaders-error"
       if o.ran && o.spanic then r := r.addCover s!"{via}-load-panicked"
       if !o.ran && o.panicked then r := r.addCover s!"{via}-joiner-of-panicked-load-panics"
-      if !o.ran && !o.panicked && o.val.isNone && o.err.isNone then r := r.addCover s!"{via}-joiner-of-panicked-load-got-nil"
+      if !o.ran && !o.panicked && o.val.isNone && o.err.isNone && !o.lkerr then r := r.addCover s!"{via}-joiner-of-panicked-load-got-nil"
       if !o.ran && o.val.isSome then
         if h.any (fun l => some l.id = o.val && l.inv < o.ret && o.inv < l.ret && o.inv < l.fe.getD 0) then
           r := r.addCover s!"{via}-joiner-got-leaders-value"
@@ -127,14 +153,33 @@ def runSection (r : Report) (s : Section) : Report := Id.run do
   r := r.addCover s!"{mode}-sections"
   if kvStr s.cfg "herd" "0" = "1" then r := r.addCover s!"{mode}-sections-herd"
   if mode = "rm" && kvStr s.cfg "sfd" "-" ≠ "-" then r := r.addCover "rm-sections-delayed-flight-entry"
+  if via = "cacheNode.Take" && kvStr s.cfg "dst" "0" = "1" then r := r.addCover "cacheNode.Take-sections-destination-reused-and-overwritten"
   for o in h do
     r := r.addCover s!"{mode}-calls"
+    -- outcome kinds of the user function, per object / user
+    let who := if via = "" then mode else via
+    if o.ran && o.serr && !o.spanic then r := r.addCover s!"{who}-fn-error-kind-{o.ek}({errKindName o.ek})"
+    if o.ran && o.spanic then r := r.addCover s!"{who}-fn-abnormal-kind-{o.pk}({exitKindName o.pk})"
+    if !o.ran && o.err.isSome then
+      match h.find? (fun l => some l.id = o.err) with
+      | some l => r := r.addCover s!"{who}-joiner-got-error-kind-{l.ek}({errKindName l.ek})"
+      | none => pure ()
+    if o.goexit then r := r.addCover s!"{who}-call-ended-by-goexit"
+    if via ≠ "" then r := r.addCover s!"{via}-entry-point-{o.ep}"
+    if o.ep ≥ 2 then r := r.addCover s!"{via}-context-kind-{o.cx}({ctxKindName o.cx})"
+    if o.lkerr && o.cx = 2 then r := r.addCover s!"{via}-cancelled-context-lookup-error"
+    if o.lkerr && o.cx ≠ 2 then r := r.addCover s!"{via}-joiner-got-leaders-lookup-error"
+    if !o.lkerr && o.cx = 2 then r := r.addCover s!"{via}-cancelled-context-joined-a-healthy-flight"
     if o.ran then r := r.addCover s!"{mode}-executed" else r := r.addCover s!"{mode}-shared"
     if o.err.isSome then r := r.addCover s!"{mode}-err-result"
     if o.hold then r := r.addCover s!"{mode}-held"
     if o.panicked then r := r.addCover s!"{mode}-fn-panicked"
     if mode = "rm" && !o.ran && o.panicked then r := r.addCover "rm-joiner-of-panicked-flight-panics"
-    if mode = "sf" && !o.ran && o.val.isNone && !o.panicked then r := r.addCover "sf-joiner-of-panicked-flight-got-zero"
+    if mode = "sf" && !o.ran && o.val.isNone && !o.panicked then
+      if h.any (fun l => l.key = o.key && l.ran && l.nilv && l.id ≠ o.id && callsOverlap l o) then
+        r := r.addCover "sf-joiner-got-nil-nil-of-an-execution-or-zero-of-a-panicked-one"
+      else r := r.addCover "sf-joiner-of-panicked-flight-got-zero"
+    if o.ran && o.nilv then r := r.addCover s!"{mode}-fn-returned-nil-nil"
     if mode = "sf" then
       if !o.ran then
         match h.find? (fun l => some l.id = o.val) with
@@ -152,7 +197,7 @@ def runSection (r : Report) (s : Section) : Report := Id.run do
         r := r.addCover "lc-waited-for-running-call"
     if mode = "rm" then
       if o.created then r := r.addCover "rm-created"
-      if o.ran && o.serr && !o.spanic then r := r.addCover "rm-create-failed"
+      if o.ran && o.failed && !o.spanic then r := r.addCover "rm-create-failed"
       if !o.ran && o.val.isSome then r := r.addCover "rm-got-existing"
       if (inj.lookup o.key).isSome then r := r.addCover "rm-call-on-registered-key"
   return r
